@@ -136,10 +136,16 @@ func vpC24dSync(t *rapid.T, e *vpC16Env, mode string) map[crypto.Hash]*p2p.SyncP
 
 func TestVP_C24_deferred(t *testing.T) {
 	c := kit.New(t, "C24", "rapid: a real node (7 genesis members, own chain = member 0, peer without neighbours) gets a generated ledger prefix (0..4 certified snapshots on drawn chains with drawn gaps, new rounds where the round rules demand or by choice, the own chain topped up to a drawn depth: untouched head, head with snapshots, head in round >=2; optionally the own chain's last snapshot just before a day boundary; optionally every other chain pushed ahead of the node's clock), then a batch of 1..4 valid pending transactions (BTC/XIN deposits, transfers of finalized outputs) is queued, popped from the cache queue (in flight) and handed in drawn order to the real chain.cosiHook(CosiActionSelfEmpty) under drawn conditions: zero or one member finalized by a competing snapshot on another chain after the pop; sync points of the peers (enough/too few/none/one peer two or more rounds ahead/one round ahead with matching or foreign head hash); the kernel clock (mock) placed relative to the own head round (inside the round, after the 4/5 cutoff, past the round gap, not after the head round's timestamp, across the day boundary, after an empty head); optionally an earlier batch of 1..2 handed the same way before (its live proposal may share one resubmitted member with the batch, or be discarded by the round transition the batch triggers); optionally the chain's action pool is full (AppendSelfEmpty). Oracle after the hook returns: every handed transaction that is unfinalized and still has a body (cache or ledger store) is owned by a live proposal (an entry of chain.CosiAggregators listing it) or returned by draining the cache queue, never both (only a resubmitted member that was already owned by a live proposal when the batch was handed may be both, and only when the whole batch was handed back, not on the duplicate refusal or an announcement); finalized transactions are not in the queue; nothing is returned twice. The path taken (which refusal, or announcement) is observed, not demanded. non-trivial = batch of >=2 that was declined, or a round transition that discarded an earlier live proposal; distinct by batch, conditions and outcome")
-	c.Require("deferred-finalized-member", "deferred-not-broadcasted", "deferred-slow-catchup", "announced", "batch>=2",
-		"deferred-round-cutoff", "deferred-new-best-external", "deferred-timestamp-not-after-head", "deferred-no-best-round", "deferred-day-boundary",
-		"deferred-duplicate-of-live-proposal", "deferred-pool-full", "announced-new-round", "transfer-member")
-	kit.SetChecks(kit.N(350, 6000))
+	required := []string{"deferred-finalized-member", "deferred-not-broadcasted", "deferred-slow-catchup", "announced", "batch>=2", "transfer-member"}
+	if kit.Thorough() {
+		// each of these is a few percent of the cases: always present in a quick
+		// run in practice (see the evidence), demanded where the count makes a
+		// miss impossible
+		required = append(required, "deferred-round-cutoff", "deferred-new-best-external", "deferred-timestamp-not-after-head", "deferred-no-best-round", "deferred-day-boundary",
+			"deferred-duplicate-of-live-proposal", "deferred-pool-full", "announced-new-round", "announced-in-round", "announced-empty-head", "round-transition-discards-earlier-proposal")
+	}
+	c.Require(required...)
+	kit.SetChecks(kit.N(150, 6000))
 	t.Cleanup(clock.Reset)
 	rapid.Check(t, func(t *rapid.T) {
 		clock.Reset()
